@@ -36,11 +36,98 @@ Definition evaluated (c : hcase) : bool := negb (h_skip c) && scan_ok (h_in c).
 
 (* ---- correspondence ------------------------------------------------------------------------------- *)
 (* decoder: same accept / reject, dynamic type, value and tail on the same bytes *)
+(* ---- normal form for the comparison of decoded values ------------------------------------------------
+   Things the typed model and the Go value present differently although they are the same value:
+   * a type descriptor "edtSlice edtUint8" denotes []uint8, which IS []byte in Go: the printer shows
+     the binary form;
+   * Go maps keep one entry per key (the last one on the wire wins; NaN keys never collide, +0 = -0);
+   * a float32 decoded into a typed destination goes through float64 (signalling NaN quieted);
+   * time.Time is printed through MarshalBinary, which normalises what UnmarshalBinary accepted
+     (the model checks version and length only): time-shaped byte strings compare equal. *)
+Definition is_u8 (t : ty) : bool := match t with TPrim PUint8 => true | _ => false end.
+Definition as_byte (v : val) : N := match v with VInt z => Z.to_N z | _ => 0 end.
+
+Fixpoint tnorm (t : ty) : ty :=
+  match t with
+  | TSlice t' => if is_u8 t' then TPrim PBinary else TSlice (tnorm t')
+  | TArray n t' => TArray n (tnorm t')
+  | TMap k e => TMap (tnorm k) (tnorm e)
+  | _ => t
+  end.
+
+Definition is_nan64 (n : N) : bool := ((n / 2 ^ 52) mod 2048 =? 2047) && negb (n mod 2 ^ 52 =? 0).
+
+Fixpoint key_eqb (a b : val) {struct a} : bool :=
+  match a, b with
+  | VF64 x, VF64 y =>
+    if is_nan64 x || is_nan64 y then false
+    else if (x mod 2 ^ 63 =? 0) && (y mod 2 ^ 63 =? 0) then true else x =? y
+  | VF32 x, VF32 y =>
+    if is_nan32 x || is_nan32 y then false
+    else if (x mod 2 ^ 31 =? 0) && (y mod 2 ^ 31 =? 0) then true else x =? y
+  | VAny t x, VAny t' y => ty_eqb t t' && key_eqb x y
+  | VList l, VList l' =>
+    (fix go (l l' : list val) : bool :=
+       match l, l' with
+       | [], [] => true
+       | x :: r, y :: r' => key_eqb x y && go r r'
+       | _, _ => false
+       end) l l'
+  | _, _ => val_eqb a b
+  end.
+
+(* one entry per key, the last occurrence wins *)
+Definition dedup (m : list (val * val)) : list (val * val) :=
+  fold_right (fun kv acc => if existsb (fun kv' => key_eqb (fst kv) (fst kv')) acc then acc else kv :: acc) [] m.
+
+Fixpoint vn (ot : option ty) (v : val) {struct v} : val :=
+  match v with
+  | VAny t x => VAny (tnorm t) (vn (Some t) x)
+  | VNil => match ot with Some (TSlice t') => if is_u8 t' then VBinNil else VNil | _ => VNil end
+  | VList l =>
+    match ot with
+    | Some (TSlice t') => if is_u8 t' then VBytes (map as_byte l) else VList (map (vn (Some t')) l)
+    | Some (TArray _ t') => VList (map (vn (Some t')) l)
+    | _ => VList (map (vn None) l)
+    end
+  | VMap m =>
+    match ot with
+    | Some (TMap k e) => VMap (dedup (map (fun kv => (vn (Some k) (fst kv), vn (Some e) (snd kv))) m))
+    | _ => VMap (dedup (map (fun kv => (vn None (fst kv), vn None (snd kv))) m))
+    end
+  | VF32 n => VF32 (quiet32 n)
+  | VBytes b => if time_valid b then VBytes [170] else v
+  | _ => v
+  end.
+
+(* reflect.Value.SetMapIndex panics ("hash of unhashable type") when an interface key holds a slice or
+   a map: Decode recovers and returns an error where the model has a value *)
+Definition unhashable_ty (t : ty) : bool := match t with TSlice _ | TMap _ _ => true | _ => false end.
+Fixpoint unhashable_key (k : val) : bool :=
+  match k with
+  | VAny t x => unhashable_ty t || unhashable_key x
+  | VList l => existsb unhashable_key l
+  | _ => false
+  end.
+Fixpoint has_unhashable (v : val) : bool :=
+  match v with
+  | VAny _ x => has_unhashable x
+  | VList l => existsb has_unhashable l
+  | VMap m => existsb (fun kv => unhashable_key (fst kv) || has_unhashable (fst kv) || has_unhashable (snd kv)) m
+  | _ => false
+  end.
+
+(* a top-level nil error (edtError ff ff) reaches the caller of Decode as a nil interface, like edtNil *)
+Definition norm_nil (t : ty) (v : val) : ty * val :=
+  match v with VErrNil => (TAny, VAnyNil) | _ => norm_top t v end.
+
 Definition corr_dec (c : hcase) : bool :=
   if negb (evaluated c) then true else
   match decode (dual (h_opts c)) (h_in c), h_dec c with
   | Ok (t, v, r), Some (it, iv, tail) =>
-    let '(t', v') := norm_top t v in ty_eqb t' it && val_eqb v' iv && (blen r =? tail)
+    let '(t', v') := norm_nil t v in
+    ty_eqb (tnorm t') it && val_eqb (vn (Some t') v') (vn (Some it) iv) && (blen r =? tail)
+  | Ok (_, v, _), None => has_unhashable v
   | Err EData, None => true
   | _, _ => false
   end.
@@ -67,6 +154,7 @@ Definition spec_idem (c : hcase) : bool :=
   if h_skip c then true else
   match h_dec c with
   | None => true
+  | Some (_, VAnyNil, _) => true      (* Decode returned nil: not a value (Encode(nil) = "nothing to encode") *)
   | Some (t, v, _) =>
     h_reenc c &&
     match h_redec c with
